@@ -46,6 +46,14 @@ Step(x) ==
      /\ ~(s1 # "None" /\ NSign(s1) = 0 /\ since' > cfg.burn)
      /\ Core(x, t1, s1, h0, l0)
 
+(* The update that ends a first burn-in which the caller interrupted with reset() (target still unknown): which observations "the first burn_in
+   observations" are is then not defined by the documentation, so target and deviation of that one step are ENVIRONMENT values (tg, sdv);
+   everything else - the sums from the observation just supplied, no alarm inside the burn-in - is the ordinary step *)
+StepGiven(x, tg, sdv) ==
+  /\ st # "drift" /\ target = "None" /\ since + 1 = cfg.burn
+  /\ since' = since + 1 /\ total' = total + 1 /\ cfg' = cfg
+  /\ Core(x, tg, sdv, sh, sl)
+
 (* the counted-then-raised call: zero deviation past the burn-in *)
 RejectZeroSd(x) ==
   LET fresh == st = "drift"
